@@ -190,3 +190,39 @@ def send_wraps_everything_after_the_handshake(s, f, plain, mac_cbc, enc, mac):
 ASSUMPTIONS = [
     "AES primitives uninterpreted (arbitrary octets); KNXIPFrame.from_knx/to_knx per their own contracts (C20/C21)",
 ]
+
+
+# ------------------------------------------------------------------ closing the session
+
+
+def _rec_send(self, knxipframe, addr=None):
+    ghost("T").append(("send", knxipframe, self.initialized))
+
+
+def _rec_super_stop(self):
+    ghost("T").append("transport_stop")
+
+
+def _rec_stop_keepalive(self):
+    ghost("T").append("keepalive_stop")
+
+
+STOP_SESSION = Obj(SecureSession, session_id=Int(0, 0xFFFF), _key=B16, _sequence_number=Int(0, MAX48), _sequence_number_received=Int(-1, MAX48), initialized=Bool(), transport=Choice(None, "open"), _keepalive_task=None, _session_status_handler=None, callbacks=Const([]))
+
+
+@lemma("C29", params=dict(s=STOP_SESSION), stubs=[(SecureSession, "send", _rec_send), (TCPTransport, "stop", _rec_super_stop), (SecureSession, "stop_keepalive_task", _rec_stop_keepalive)])
+def close_goes_through_the_wrapping_send(s):
+    """stop(): the session-close status leaves through send() while the session still counts as
+    initialized (so it is wrapped - send lemma above), at most once, and only on an open, initialized
+    session; afterwards the session is not initialized and the transport is stopped."""
+    was_init, was_open = s.initialized, s.transport is not None
+    s.stop()
+    tr = ghost("T")
+    sends = [x for x in tr if isinstance(x, tuple) and x[0] == "send"]
+    if was_init and was_open:
+        assert len(sends) == 1 and sends[0][2] is True
+        b = sends[0][1].body
+        assert isinstance(b, SessionStatus) and b.status == SecureSessionStatusCode.STATUS_CLOSE
+    else:
+        assert sends == []
+    assert not s.initialized and tr[-1] == "transport_stop"
